@@ -129,6 +129,8 @@ def corpus_defs(tier):
     d['boundfrag'] = dict(trace='TraceFrag', rand=[dict(gen='boundfrag', n=0, rel=None, facets=None)])
     # --- cli: the built muxide binary vs. the in-process library (C20) -----------------------------
     d['cli'] = dict(trace='TraceCli', rand=[dict(gen='cli', n=0, rel=None, facets=None)], cli_info=True)
+    # --- dates: every day (thorough) or every 37th day (quick) of 1970-01-01..9999-12-31 through a real muxer ----
+    d['dates'] = dict(trace='TraceDates', kind='dates', stride=37 if q else 1, shards=16 if q else 64)
     # --- valtab: dry-run validators and FromStr/Display surfaces (specification growth beyond the list) ----
     d['valtab'] = dict(trace='TraceVal', kind='valtab')
     # --- long: 2 000 - 20 000 frame recordings (no accumulated drift), thorough tier only -----------------
@@ -226,6 +228,17 @@ def run(ctx, name, cdir):
         shutil.rmtree(outdir, ignore_errors=True)
         shutil.rmtree(os.path.join(cdir, 'tv'), ignore_errors=True)
         return res
+    if d.get('kind') == 'dates':
+        outdir = os.path.join(cdir, 'dates')
+        hr = core.run_harness(ctx, ['dates', '--from', '0', '--to', '2932896', '--stride', str(d['stride']), '--shards', str(d['shards']), '--out', outdir])
+        shard_files = sorted(glob.glob(os.path.join(outdir, 'shard_*.ndjson')))
+        sigs, consumed, errors = core.run_trace_shards(ctx, d['trace'], shard_files, os.path.join(cdir, 'tv'))
+        res = {'name': name, 'errors': errors, 'instances': hr.get('instances', 0), 'events': consumed, 'shards': len(shard_files), 'mc_runs': [],
+               'samples': [{'days': 0, 'stride': d['stride']}], 'nontrivial': {'*': hr.get('instances', 0)},
+               'sigs': [{'sig': s_['sig'], 'inst': s_['inst'], 'ev': s_['ev'], 'module': d['trace'], 'line': {'date_days': s_['inst']}} for s_ in sigs]}
+        shutil.rmtree(outdir, ignore_errors=True)
+        shutil.rmtree(os.path.join(cdir, 'tv'), ignore_errors=True)
+        return res
     if d.get('kind') == 'fnlist':
         strings = gen.generate(d['gen'], 0, ctx.seed, ctx.tier)
         inp = os.path.join(cdir, 'strings.ndjson')
@@ -319,6 +332,13 @@ def run_lines(ctx, name, lines, cdir, trace=None, harness_cmd=None, inst_div=Non
         outdir = os.path.join(cdir, 'trace')
         hr = core.run_harness(ctx, ['fnone', '--alpha', ','.join(map(str, ln['alpha'])), '--k', str(ln['k']), '--out', outdir]
                               + (['--cfg'] if ln.get('cfg') else []))
+        sigs, consumed, errors = core.run_trace_shards(ctx, trace, sorted(glob.glob(os.path.join(outdir, 'shard_*.ndjson'))), os.path.join(cdir, 'tv'))
+        return {'errors': errors, 'sigs': [{'sig': s['sig'], 'inst': s['inst'], 'ev': s['ev'], 'module': trace, 'line': ln} for s in sigs],
+                'instances': 1, 'events': consumed}
+    if lines and 'date_days' in lines[0]:
+        ln = lines[0]
+        outdir = os.path.join(cdir, 'trace')
+        core.run_harness(ctx, ['dates', '--from', str(ln['date_days']), '--to', str(ln['date_days']), '--stride', '1', '--shards', '1', '--out', outdir])
         sigs, consumed, errors = core.run_trace_shards(ctx, trace, sorted(glob.glob(os.path.join(outdir, 'shard_*.ndjson'))), os.path.join(cdir, 'tv'))
         return {'errors': errors, 'sigs': [{'sig': s['sig'], 'inst': s['inst'], 'ev': s['ev'], 'module': trace, 'line': ln} for s in sigs],
                 'instances': 1, 'events': consumed}
